@@ -4,6 +4,10 @@ Tie (relational — a helper that soundly approves *less* is not a violation, so
 compared for equality): approval by the real helper ⇒ the real edit succeeds; every step split / join /
 lift / wrap emit satisfies the Lean monitor `isStructuralAt` (lean/PM/Monitor.lean; Props/C12.lean proves
 such a step keeps the text and leaf nodes exactly) and is applied by the model too (same document).
+Exact ties: the step each of split / join / lift / wrap records equals the step the builder model constructs
+(lean/PM/StructEdit.lean; failure class of build+apply when the real edit raises); every helper answer (can_split,
+can_join, join_point, lift_target, find_wrapping, insert_point, drop_point, can_change_type) equals the model's
+(lean/PM/Structure.lean, Structure2.lean), `None` and "raises" included, also at off-guard positions.
 Search: approve ⇒ perform ⇒ `check()` ∧ leaf/text sequence equal; helpers never die with an internal
 error and return in-range results; for random schemas only "a performed edit that returns is valid
 and keeps the leaf sequence".
@@ -11,6 +15,7 @@ and keeps the leaf sequence".
 from prosemirror.model import Fragment, Slice
 from prosemirror.transform import ReplaceStep, Transform
 from prosemirror.transform.structure import (
+    can_change_type,
     can_join,
     can_split,
     drop_point,
@@ -29,10 +34,22 @@ def content(toks):
     return [t for t in toks if t[0] in ("leaf", "u")]
 
 
-def perform(ctx, info, d, name, thunk, replay, reqs, metas, approved, keep_content=True):
+def perform(ctx, info, d, name, thunk, replay, reqs, metas, approved, keep_content=True, build=None):
     tr = Transform(d)
     st, val, added = ops.run_op(tr, thunk)
     ctx.count(f"{name}:{'approved' if approved else 'unapproved'}:{st}")
+    if build is not None and st not in ("hang",):
+        # exact tie of the builder models (lean/PM/StructEdit.lean): the step the real Transform recorded is the step the
+        # model builds; when the real edit raises, building + applying the model's step fails with the same class
+        breq = dict(build, op="structStep", s=info.lean_id, doc=info.node(d))
+        if st == "ok" and len(tr.steps) == 1:
+            reqs.append(breq)
+            metas.append(("builder " + name, replay, info.step(tr.steps[0])))
+            ctx.count(f"builder tie {name}: step compared")
+        elif st != "ok":
+            reqs.append(dict(breq, apply=True))
+            metas.append(("builder-fails " + name, dict(replay, raised=val), {"err": st}))
+            ctx.count(f"builder tie {name}: failure class compared")
     if st != "ok":
         if approved or st in ("internal", "hang"):
             ctx.violation(name + ("-approved-fails" if approved else "-internal"),
@@ -62,9 +79,25 @@ def run(ctx):
         outs = ctx.driver.run(reqs) if reqs else []
         for req, (op, replay, exp), out in zip(reqs, metas, outs):
             ctx.count("model_requests")
+            if op.startswith("helper "):
+                if out != exp:
+                    ctx.mismatch(op, replay, exp, out)
+                continue
+            if op.startswith("builder-fails"):
+                if out != exp:
+                    ctx.mismatch(op, replay, exp, out if "err" in out else "model: the built step applies")
+                continue
             if out.get("ok") != exp:
                 ctx.mismatch(op, replay, exp if op != "apply" else "recorded document", out if ("err" in out or op != "apply") else "different document")
         del reqs[:], metas[:]
+
+    def tie(info, d, name, fields, replay, st, val, enc=lambda v: v):
+        """exact tie of a helper model (lean/PM/Structure.lean, Structure2.lean): same answer (incl. None), or both raise"""
+        if st == "hang":
+            return
+        reqs.append(dict(fields, op=name, s=info.lean_id, doc=info.node(d)))
+        metas.append(("helper " + name, replay, {"ok": enc(val)} if st == "ok" else {"err": "raises"}))
+        ctx.count(f"helper tie {name}: " + ("raises" if st != "ok" else "None" if val is None else "answer"))
 
     fam = schemas.family()
     for si in range(ctx.budget(14, 60)):
@@ -79,6 +112,22 @@ def run(ctx):
         for d in docs:
             size = d.content.size
             aligned = gen.aligned_positions(d)
+            # ---- off-guard input (inside a surrogate pair, one past the end): tie only — the models say where the code raises
+            for pos in sorted(set(range(size + 2)) - set(aligned)):
+                base = {"schema": info.name, "doc": d.to_json(), "pos": pos, "off_guard": True}
+                st, v = outcome(lambda: can_join(d, pos))
+                tie(info, d, "canJoin", {"pos": pos}, dict(base, helper="can_join"), st, v)
+                for direction in (-1, 1):
+                    st, v = outcome(lambda: join_point(d, pos, direction))
+                    tie(info, d, "joinPoint", {"pos": pos, "dir": direction}, dict(base, helper="join_point", dir=direction), st, v)
+                st, v = outcome(lambda: can_split(d, pos, 1))
+                tie(info, d, "canSplit", {"pos": pos, "depth": 1}, dict(base, helper="can_split", depth=1), st, v, bool)
+                nt0 = list(schema.nodes.values())[(pos * 5 + size) % len(schema.nodes)]
+                st, v = outcome(lambda: insert_point(d, pos, nt0))
+                tie(info, d, "insertPoint", {"pos": pos, "ty": info.nid[nt0.name]}, dict(base, helper="insert_point", type=nt0.name), st, v)
+                st, v = outcome(lambda: can_change_type(d, pos, nt0))
+                tie(info, d, "canChangeType", {"pos": pos, "ty": info.nid[nt0.name]}, dict(base, helper="can_change_type", type=nt0.name), st, v, bool)
+                ctx.count("off-guard positions probed")
             for pos in aligned:
                 if ctx.time_left() < 0:
                     break
@@ -89,29 +138,35 @@ def run(ctx):
                 for depth in (1, 2):
                     st, ok = outcome(lambda: can_split(d, pos, depth))
                     replay = dict(base, helper="can_split", depth=depth)
+                    tie(info, d, "canSplit", {"pos": pos, "depth": depth}, replay, st, ok, bool)
                     if st != "ok":
                         ctx.violation("can_split-raises", f"can_split raised {ok}", replay)
                         continue
                     if ok or (not bundled and rng.random() < 0.15) or rng.random() < 0.03:
                         if bundled or ok or True:
-                            perform(ctx, info, d, "split", lambda tr: tr.split(pos, depth), replay, reqs, metas, bool(ok) and bundled)
+                            perform(ctx, info, d, "split", lambda tr: tr.split(pos, depth), replay, reqs, metas, bool(ok) and bundled,
+                                    build={"k": "split", "pos": pos, "depth": depth})
                 # ---- can_join / join / join_point
                 st, ok = outcome(lambda: can_join(d, pos))
                 replay = dict(base, helper="can_join")
+                tie(info, d, "canJoin", {"pos": pos}, replay, st, ok)
                 if st != "ok":
                     ctx.violation("can_join-raises", f"can_join raised {ok}", replay)
                 elif ok or rng.random() < 0.03:
-                    perform(ctx, info, d, "join", lambda tr: tr.join(pos), replay, reqs, metas, bool(ok) and bundled)
+                    perform(ctx, info, d, "join", lambda tr: tr.join(pos), replay, reqs, metas, bool(ok) and bundled,
+                            build={"k": "join", "pos": pos, "depth": 1})
                 for direction in (-1, 1):
                     st, jp = outcome(lambda: join_point(d, pos, direction))
                     replay = dict(base, helper="join_point", dir=direction)
+                    tie(info, d, "joinPoint", {"pos": pos, "dir": direction}, replay, st, jp)
                     if st != "ok":
                         ctx.violation("join_point-raises", f"join_point raised {jp}", replay)
                     elif jp is not None:
                         if not (0 <= jp <= size):
                             ctx.violation("join_point-range", "join_point returned an out-of-range position", dict(replay, got=jp))
                         else:
-                            perform(ctx, info, d, "join", lambda tr: tr.join(jp), dict(replay, join_at=jp), reqs, metas, bundled)
+                            perform(ctx, info, d, "join", lambda tr: tr.join(jp), dict(replay, join_at=jp), reqs, metas, bundled,
+                                    build={"k": "join", "pos": jp, "depth": 1})
                 # ---- lift_target / lift, find_wrapping / wrap
                 for q in (pos, min(size, pos + rng.randint(1, 6))):
                     if q not in aligned and q != pos:
@@ -121,27 +176,38 @@ def run(ctx):
                         continue
                     st, tgt = outcome(lambda: lift_target(br))
                     replay = dict(base, helper="lift_target", to=q, range=[br.start, br.end, br.depth])
+                    tie(info, d, "liftTarget", {"from": br.from_.pos, "to": br.to.pos, "depth": br.depth}, replay, st, tgt)
                     if st != "ok":
                         ctx.violation("lift_target-raises", f"lift_target raised {tgt}", replay)
                     elif tgt is not None:
                         if not (0 <= tgt < br.depth):
                             ctx.violation("lift_target-range", "lift_target returned a depth outside [0, range depth)", dict(replay, target=tgt))
                         else:
-                            perform(ctx, info, d, "lift", lambda tr: tr.lift(br, tgt), dict(replay, target=tgt), reqs, metas, bundled)
+                            perform(ctx, info, d, "lift", lambda tr: tr.lift(br, tgt), dict(replay, target=tgt), reqs, metas, bundled,
+                                    build={"k": "lift", "from": br.from_.pos, "to": br.to.pos, "depth": br.depth, "target": tgt})
                     if block_types:
                         wt = rng.choice(block_types)
                         attrs = gen.gen_attrs(rng, wt)
                         st, wr = outcome(lambda: find_wrapping(br, wt, attrs))
                         replay = dict(base, helper="find_wrapping", to=q, range=[br.start, br.end, br.depth], wrapper=wt.name, wrapper_attrs=attrs)
+                        tie(info, d, "findWrappingRange", {"from": br.from_.pos, "to": br.to.pos, "depth": br.depth, "ty": info.nid[wt.name]},
+                            replay, st, wr, lambda v: None if v is None else [info.nid[w.type.name] for w in v])
                         if st != "ok":
                             ctx.violation("find_wrapping-raises", f"find_wrapping raised {wr}", replay)
                         elif wr is not None:
                             perform(ctx, info, d, "wrap", lambda tr: tr.wrap(br, wr), dict(replay, chain=[w.type.name for w in wr]),
-                                    reqs, metas, bundled)
+                                    reqs, metas, bundled,
+                                    build={"k": "wrap", "from": br.from_.pos, "to": br.to.pos, "depth": br.depth,
+                                           "wrappers": [[info.nid[w.type.name], info.attrs(w.type, w.attrs)] for w in wr]})
                 # ---- insert_point
                 nt = rng.choice(list(schema.nodes.values()))
                 st, ip = outcome(lambda: insert_point(d, pos, nt))
                 replay = dict(base, helper="insert_point", type=nt.name)
+                tie(info, d, "insertPoint", {"pos": pos, "ty": info.nid[nt.name]}, replay, st, ip)
+                # ---- can_change_type (exact tie only: it approves nothing by itself)
+                ct = list(schema.nodes.values())[(pos * 7 + size) % len(schema.nodes)]   # no draw from rng: the case stream stays as it was
+                stc_, okc = outcome(lambda: can_change_type(d, pos, ct))
+                tie(info, d, "canChangeType", {"pos": pos, "ty": info.nid[ct.name]}, dict(base, helper="can_change_type", type=ct.name), stc_, okc, bool)
                 if st != "ok":
                     ctx.violation("insert_point-raises", f"insert_point raised {ip}", replay)
                 elif ip is not None:
@@ -162,6 +228,7 @@ def run(ctx):
                 sl = gen.random_slice(rng, docs)
                 st, dp = outcome(lambda: drop_point(d, pos, sl))
                 replay = dict(base, helper="drop_point", slice=sl.to_json())
+                tie(info, d, "dropPoint", {"pos": pos, "slice": info.slice(sl)}, replay, st, dp)
                 if st != "ok":
                     ctx.violation("drop_point-raises", f"drop_point raised {dp}", replay)
                 elif dp is not None:
